@@ -228,23 +228,43 @@ def check_import(case):
 
 
 def selftest():
-    """ Calibration of the pyzx convention on asymmetric diagrams. """
-    tests = [
-        {"cls": "zx", "dom": [[1, 0]] * 2, "layers": [
-            [{"k": "zx", "g": "Z", "n": [1, 2], "ph": 0}, 0],
-            [{"k": "zx", "g": "X", "n": [2, 1], "ph": 0}, 1]]},
-        {"cls": "zx", "dom": [[1, 0]] * 2, "layers": [
-            [{"k": "zx", "g": "Z", "n": [1, 1], "ph": 0.25}, 0]]},
-        {"cls": "zx", "dom": [], "layers": [
-            [{"k": "zx", "g": "X", "n": [0, 1], "ph": 0.5}, 0],
-            [{"k": "zx", "g": "Z", "n": [0, 1], "ph": 0.125}, 1]]},
-        {"cls": "zx", "dom": [[1, 0]], "layers": [
-            [{"k": "zx", "g": "scalar", "ph": [0.5, 0.5]}, 0],
-            [{"k": "zx", "g": "Z", "n": [1, 2], "ph": 0.3}, 0]]},
-    ]
-    for spec in tests:
-        d = specs.build(spec)
-        assert np.allclose(pyzx_matrix(d.to_pyzx()), ref_matrix(spec)), spec
+    """ Calibration of the pyzx convention on asymmetric graphs built with
+    pyzx's own API (no code under test involved). """
+    from pyzx import Graph, VertexType, EdgeType
+    # CX: input 0 - Z - output 0 ; input 1 - X - output 1 ; Z - X
+    g = Graph()
+    i0, i1 = g.add_vertex(VertexType.BOUNDARY), g.add_vertex(
+        VertexType.BOUNDARY)
+    z, x = g.add_vertex(VertexType.Z), g.add_vertex(VertexType.X)
+    o0, o1 = g.add_vertex(VertexType.BOUNDARY), g.add_vertex(
+        VertexType.BOUNDARY)
+    for e in ((i0, z), (i1, x), (z, x), (z, o0), (x, o1)):
+        g.add_edge(e, EdgeType.SIMPLE)
+    for v, q, r in ((i0, 0, 0), (i1, 1, 0), (z, 0, 1), (x, 1, 2),
+                    (o0, 0, 3), (o1, 1, 3)):
+        g.set_position(v, q, r)
+    g.inputs, g.outputs = [i0, i1], [o0, o1]
+    cx = {"cls": "zx", "dom": [[1, 0]] * 2, "layers": [
+        [{"k": "zx", "g": "Z", "n": [1, 2], "ph": 0}, 0],
+        [{"k": "zx", "g": "X", "n": [2, 1], "ph": 0}, 1]]}
+    assert np.allclose(pyzx_matrix(g), ref_matrix(cx))
+    # a state with phases: X(0,1,1/2) (x) Z(0,1,1/8), pyzx phases in units
+    # of pi, discopy phases in full turns
+    g = Graph()
+    a = g.add_vertex(VertexType.X, phase=1.0)
+    b = g.add_vertex(VertexType.Z, phase=0.25)
+    o0, o1 = g.add_vertex(VertexType.BOUNDARY), g.add_vertex(
+        VertexType.BOUNDARY)
+    g.add_edge((a, o0), EdgeType.SIMPLE)
+    g.add_edge((b, o1), EdgeType.HADAMARD)
+    for v, q, r in ((a, 0, 1), (b, 1, 1), (o0, 0, 2), (o1, 1, 2)):
+        g.set_position(v, q, r)
+    g.inputs, g.outputs = [], [o0, o1]
+    state = {"cls": "zx", "dom": [], "layers": [
+        [{"k": "zx", "g": "X", "n": [0, 1], "ph": 0.5}, 0],
+        [{"k": "zx", "g": "Z", "n": [0, 1], "ph": 0.125}, 1],
+        [{"k": "zx", "g": "H"}, 1]]}
+    assert np.allclose(pyzx_matrix(g), ref_matrix(state))
 
 
 core.register("C17", [
